@@ -1189,6 +1189,24 @@ def rule_all_of_merge_is_completed(repo: Repo, rep, rule: str = "R2.22") -> None
                     isinstance(t, ast.Attribute) and t.attr == "properties" for t in (nd.ast.targets if isinstance(nd.ast, ast.Assign) else [nd.ast.target])):
                 lim = [g for g, pol in _g22(cfg22, nd.id, dom22) if g.kind == "test" and pol is not None and g.ast is not None and any(
                     isinstance(x, ast.Attribute) and x.attr in ("_is_circular_ref", "_circular_ref_path") for x in ast.walk(g.ast))]
+                # ... the same restriction written as a filter on the collection the merge loop runs over (`pending = [s for s in ... if any(m._is_circular_ref ...)]`)
+                if not lim:
+                    from sa.match import Locals as _L22
+
+                    L22 = _L22(f22.node)
+                    p22 = parent(nd.ast)
+                    while p22 is not None and p22 is not f22.node:
+                        if isinstance(p22, (ast.For, ast.AsyncFor)):
+                            srcs = [p22.iter] + ([v for _, v, _ in L22.defs.get(p22.iter.id, []) if v is not None] if isinstance(p22.iter, ast.Name) else [])
+                            for sv in srcs:
+                                for comp in [x for x in ast.walk(sv) if isinstance(x, (ast.ListComp, ast.GeneratorExp, ast.SetComp, ast.DictComp))]:
+                                    for g22 in comp.generators:
+                                        for cnd in g22.ifs:
+                                            if any(isinstance(x, ast.Attribute) and x.attr in ("_is_circular_ref", "_circular_ref_path") for x in ast.walk(cnd)):
+                                                class _G:  # the filter plays the role of the guard
+                                                    ast = cnd
+                                                lim = [_G]
+                        p22 = parent(p22)
                 if lim:
                     rep.violation(rule, sub + " (transitive)", f"{f22.fq}|completion-limited-to-placeholder-holders",
                                   f"`{norm(lim[0].ast)[:70]}` decides whether a schema is re-merged at all: a schema that inherits from a *real* schema which was itself completed by this "
